@@ -2,7 +2,8 @@
 # usage: tools/sweep.sh <tier> "<seeds>" <ID>...   — runs checks for several seeds, prints one line per run + failure signatures
 # (works from a `vp run` snapshot too: makes ../repo resolve to /repo)
 cd "$(dirname "$0")/.."
-[ -e ../repo ] || ln -sfn /repo ../repo
+# from a `vp run --with-repo` snapshot use the frozen copy of /repo (so that edits to /repo do not disturb the sweep)
+[ -e ../repo ] || ln -sfn "${VP_RUN_REPO:-/repo}" ../repo
 TIER="$1"; SEEDS="$2"; shift 2
 for s in $SEEDS; do
   for id in "$@"; do
